@@ -559,6 +559,13 @@ def order(
         scpath_discard(item)
         return item
 
+    # A data root is numbered when ``add_to_result`` reaches one of the keys it
+    # was recorded for.  If all of those keys were stripped as alias leaves
+    # above (they got their priority there), nothing will ever ask for it
+    for stripped in [k for k in requires_data_task if k not in dsk]:
+        for data_task in requires_data_task.pop(stripped):
+            add_to_result(data_task)
+
     while len(result) < expected_len:
         crit_path_counter += 1
         assert not critical_path
